@@ -49,7 +49,8 @@ def numerical_distances(x_values, y_values):
     ds : np.ndarray
         The matrix of distances.
     """
-    xx, yy = np.meshgrid(x_values, y_values)
+    # ds[i, j] is the distance between x_values[i] and y_values[j].
+    xx, yy = np.meshgrid(x_values, y_values, indexing='ij')
     return abs(xx - yy)
 
 
@@ -72,18 +73,20 @@ def earth_movers_distance_pmf(x, y, distances=None):
     emd : float
         The Earth Mover's Distance.
     """
-    n = len(x)
+    n, m = len(x), len(y)
 
     if distances is None:
-        # assume categorical distribution
+        # categorical distances
         distances = categorical_distances(n)
 
-    eye = np.eye(n)
-    A = np.vstack([np.dstack([eye] * n).reshape(n, n**2), np.tile(eye, n)])
+    # The plan is flattened row-major: entry i * m + j is the mass moved from
+    # x[i] to y[j]. Its row sums must be x and its column sums y.
+    A = np.vstack([np.kron(np.eye(n), np.ones((1, m))),
+                   np.kron(np.ones((1, n)), np.eye(m))])
 
     b = np.concatenate([x, y], axis=0)
 
-    c = distances.flatten()
+    c = np.asarray(distances, dtype=float).flatten()
 
     res = linprog(c, A_eq=A, b_eq=b, bounds=[0, None])
 
